@@ -14,6 +14,8 @@ IO = 'lightmotif-io/src/'
 
 PYIO = 'lightmotif-py/lightmotif/io.rs'
 
+SAMP = 'lightmotif/src/sampler.rs'
+
 MUTANTS = [
     # ---- C05
     dict(id='c05-accept-lowercase', prop='C05', rule='R5.1', file=ABC, old="b'N' => Ok(Nucleotide::N),", new="b'N' | b'n' => Ok(Nucleotide::N),"),
@@ -72,6 +74,17 @@ MUTANTS = [
     dict(id='c14-crossed-fields', prop='C14', rule='R14.6', file=IO+'jaspar/parse.rs', old="            id: id.to_string(),\n            description: description.map(String::from),", new="            id: description.unwrap_or(id).to_string(),\n            description: Some(id.to_string()),"),
     dict(id='c14-py-crossed', prop='C14', rule='R14.6', file=PYIO, old="                description,\n                accession,\n                id,", new="                description,\n                accession: id,\n                id: accession,"),
     dict(id='c14-tag-crossed', prop='C14', rule='R14.6', file=IO+'transfac/parse.rs', old='                let (rest, line) = preceded(tag("NA"), parse_line)(input)?;\n                name = Some(line.trim().to_string());', new='                let (rest, line) = preceded(tag("NA"), parse_line)(input)?;\n                id = Some(line.trim().to_string());'),
+    # ---- C16
+    dict(id='c16-exclude-missing-bg', prop='C16', rule='R16.1', file=SAMP, old="            for symbol in 0..A::K::USIZE {\n                self.background_counts[symbol] -= counts[symbol];\n            }\n", new=""),
+    dict(id='c16-include-window-shift', prop='C16', rule='R16.1', file=SAMP, old="            for j in start..start + self.width {\n                self.background_counts[seq[j].as_index()] -= 1;\n            }\n            self.active.set(z);", new="            for j in start + 1..start + self.width {\n                self.background_counts[seq[j].as_index()] -= 1;\n            }\n            self.active.set(z);"),
+    dict(id='c16-exclude-plus', prop='C16', rule='R16.1', file=SAMP, old="self.motif[MatrixCoordinates::new(i, seq[j].as_index())] -= 1;", new="self.motif[MatrixCoordinates::new(i, seq[j].as_index())] += 1;"),
+    dict(id='c16-missing-set', prop='C16', rule='R16.1', file=SAMP, old="            self.active.set(z);\n", new=""),
+    dict(id='c16-new-other-seq', prop='C16', rule='R16.2', file=SAMP, old="                for j in start..start + width {\n                    background_counts[seq[j].as_index()] -= 1;", new="                for j in start..start + width {\n                    background_counts[data.sequences.as_ref()[0][j].as_index()] -= 1;"),
+    dict(id='c16-pssm-after-include', prop='C16', rule='R16.4', file=SAMP, old="        let (cm, pssm) = self.prepare_pssm();\n        // select new start position for sequence Z\n        self.update_holdout(z, &pssm);\n        // add new holdout sequence position to motif counts\n        self.include_sequence(z);", new="        let (_c, pssm) = self.prepare_pssm();\n        // select new start position for sequence Z\n        self.update_holdout(z, &pssm);\n        // add new holdout sequence position to motif counts\n        self.include_sequence(z);\n        let (cm, _p) = self.prepare_pssm();"),
+    dict(id='c16-include-other-z', prop='C16', rule='R16.4', file=SAMP, old="        self.include_sequence(z);\n\n        // in Zoops", new="        self.include_sequence((z + 1) % self.starts.len());\n\n        // in Zoops"),
+    dict(id='c16-start-range', prop='C16', rule='R16.5', file=SAMP, old="rng.sample(Uniform::new(0, seq.len() - width + 1))", new="rng.sample(Uniform::new(0, seq.len() - width + 2))"),
+    dict(id='c16-thread-rng', prop='C16', rule='R16.6', file=SAMP, old="            self.starts[z] = dist.sample(&mut self.rng);", new="            self.starts[z] = dist.sample(&mut rand::thread_rng());"),
+    dict(id='c16-starts-written-elsewhere', prop='C16', rule='R16.3', file=SAMP, old="        let z = self.select_holdout();\n", new="        let z = self.select_holdout();\n        if self.step == 7 { self.starts[z] = 0; }\n"),
     # ---- C15
     dict(id='c15-new-underflow', prop='C15', rule='R15.1', file=IO+'jaspar/mod.rs', old="            .unwrap_or(1)\n            .saturating_sub(1);", new="            .unwrap_or(1)\n            - 1;"),
     dict(id='c15-unimplemented', prop='C15', rule='R15.1', file=IO+'jaspar/parse.rs', old="        Err(_) => Err(nom::Err::Failure(nom::error::Error::new(\n            input,\n            nom::error::ErrorKind::Verify,\n        ))),", new="        Err(_) => unimplemented!(),"),
